@@ -1135,3 +1135,108 @@ Definition wf_session (c : str) (pos : nat) (ops : list sop) : bool :=
 Definition run_C03_session (binary : bool) (c : str) (ops : list sop) : val :=
   let '(answers, h) := run_session {| h_content := c; h_pos := 0; h_binary := binary |} ops in
   VL [VB (wf_session c 0 ops); VL [VL answers; VI (Z.of_nat (h_pos h))]].
+
+(* ------------------------------------------------------------------ the recursion of _resolve_fname (main.py:171-239) over a
+   file-system oracle.  The decision with the _isglob flag (main.py:209: `elif _isglob and glob.has_magic(fname)`); names found
+   by a pattern are resolved again with _isglob=False and the caller's archive option (main.py:215), the content of an archive
+   is resolved as the pattern <tmpdir>/**/*.* WITHOUT the archive option and with _isglob at its default (main.py:226-228). *)
+Definition resolve_g (isglob : bool) (datadir example : str) (f : fname_arg) (a : archive_arg) : decision :=
+  match f with
+  | FBytes => DErrBytes
+  | FHandle => DPassHandle
+  | _ =>
+      let name0 := match f with FNone => example | FPath s => s | FStr s => s | _ => [] end in
+      let name := if startswith (bs "!data/"%bs) name0
+                  then datadir ++ [slash] ++ removeprefix (bs "!data/"%bs) name0 else name0 in
+      if str_eqb name (bs "-"%bs) then DStdin
+      else if contains (bs "://"%bs) (firstn 10 name) then
+        let bname := url_basename name in
+        DUrl bname
+          (if archive_requested a || existsb (fun ext => endswith (dot :: ext) bname) ARCHIVE_EXTS
+           then if has_magic bname then UArchiveGlob else UArchiveUnpack (match a with AStr s => Some s | _ => None end)
+           else if is_gz_arg a || endswith (bs ".gz"%bs) bname then UGz
+           else UData)
+      else if isglob && has_magic name then DGlob name
+      else if archive_requested a || existsb (fun ext => endswith (dot :: ext) name) ARCHIVE_EXTS
+      then DArchive name (match a with AStr s => Some s | _ => None end)
+      else if is_gz_arg a || endswith (bs ".gz"%bs) name then DGz name
+      else DPlain name
+  end.
+(* what glob.glob / shutil.unpack_archive / gzip.open answer *)
+Record fsys := {
+  fs_glob : str -> list str;                        (* glob.glob(pattern, recursive=True) *)
+  fs_unpack : str -> option str -> option str;      (* shutil.unpack_archive(name, tmpdir, format): Some tmpdir, None = it raises *)
+  fs_gunzip : str -> option str                     (* gzip.open(name).read(): the data, None = it raises *)
+}.
+(* what the wrapped reader is finally called with *)
+Inductive leaf :=
+| LFile (name : str)                                (* a file name: opened by the reader *)
+| LData (data : str)                                (* io.BytesIO(decompressed data) *)
+| LStdin
+| LUrl (bname : str) (sub : url_sub).               (* the download branch is not followed further here *)
+Inductive rres := RFuel | RErr | ROk (l : list leaf).
+Definition glob_tail : str := bs "/**/*.*"%bs.
+(* reduce(operator.add, [new_reader(n) for n in names]): all results in order; the first exception wins *)
+Fixpoint rconcat (rs : list rres) : rres :=
+  match rs with
+  | [] => ROk []
+  | r :: t => match r, rconcat t with
+              | RFuel, _ => RFuel
+              | _, RFuel => RFuel
+              | RErr, _ => RErr
+              | _, RErr => RErr
+              | ROk a, ROk b => ROk (a ++ b)
+              end
+  end.
+Fixpoint resolve_run (fuel : nat) (fs : fsys) (dd ex : str) (isglob : bool) (name : str) (a : archive_arg) : rres :=
+  match fuel with
+  | O => RFuel
+  | S k =>
+      match resolve_g isglob dd ex (FStr name) a with
+      | DGlob pat =>
+          match fs_glob fs pat with
+          | [] => RErr                                                        (* IOError: no file matching *)
+          | names => rconcat (map (fun n => resolve_run k fs dd ex false n a) names)
+          end
+      | DArchive n fmt =>
+          match fs_unpack fs n fmt with
+          | None => RErr
+          | Some tmp => resolve_run k fs dd ex true (tmp ++ glob_tail) ANone
+          end
+      | DGz n => match fs_gunzip fs n with None => RErr | Some d => ROk [LData d] end
+      | DPlain n => ROk [LFile n]
+      | DStdin => ROk [LStdin]
+      | DUrl b sub => ROk [LUrl b sub]
+      | _ => RErr
+      end
+  end.
+
+(* harness entry point: the oracle as finite tables *)
+Fixpoint alist_get {A} (k : str) (t : list (str * A)) : option A :=
+  match t with [] => None | (n, v) :: r => if str_eqb n k then Some v else alist_get k r end.
+Definition opt_str_eqb (a b : option str) : bool :=
+  match a, b with Some x, Some y => str_eqb x y | None, None => true | _, _ => false end.
+Fixpoint unpack_get (k : str) (f : option str) (t : list (str * (option str * option str))) : option str :=
+  match t with
+  | [] => None
+  | (n, (g, v)) :: r => if str_eqb n k && opt_str_eqb g f then v else unpack_get k f r
+  end.
+Definition fsys_of (globs : list (str * list str)) (unpacks : list (str * (option str * option str))) (gunzips : list (str * str)) : fsys :=
+  {| fs_glob := fun p => match alist_get p globs with Some l => l | None => [] end;
+     fs_unpack := fun n f => unpack_get n f unpacks;
+     fs_gunzip := fun n => alist_get n gunzips |}.
+Definition v_leaf (l : leaf) : val :=
+  match l with
+  | LFile n => VL [VS (bs "file"%bs); VS n]
+  | LData d => VL [VS (bs "data"%bs); VS d]
+  | LStdin => VL [VS (bs "stdin"%bs)]
+  | LUrl b _ => VL [VS (bs "url"%bs); VS b]
+  end.
+Definition run_C03_rtree (fuel : nat) (globs : list (str * list str)) (unpacks : list (str * (option str * option str)))
+                         (gunzips : list (str * str)) (name : str) (a : archive_arg) : val :=
+  VL [VB true;
+      match resolve_run fuel (fsys_of globs unpacks gunzips) [] [] true name a with
+      | ROk l => VL (map v_leaf l)
+      | RErr => VE (bs "Error"%bs)
+      | RFuel => VE (bs "OutOfFuel"%bs)
+      end].
